@@ -67,7 +67,10 @@ fn build_engine(req: &J) -> SaseEngine {
             predicate: opt_pred(&s["pred"]),
             alias: s["alias"].as_str().map(|x| x.to_string()),
         };
-        if s["all"].as_bool().unwrap_or(false) {
+        if s["not"].as_bool().unwrap_or(false) {
+            // pattern-level negation step (engine/compiler.rs: SasePatternExpr::Not); outside Sase/Model.v, oracle-only probes
+            steps.push(SasePattern::Not(Box::new(ev)));
+        } else if s["all"].as_bool().unwrap_or(false) {
             steps.push(SasePattern::KleenePlus(Box::new(ev)));
         } else {
             steps.push(ev);
